@@ -51,7 +51,9 @@ def materialise(path, blocks, placement, rng, coin='bitcoin', h0=0, decoys=(), e
         if pad and rng.random() < 0.5:
             d.raw(real, rng.randbytes(rng.randrange(1, 40)))
     for i, b in enumerate(blocks):
-        d.record(b['hdr'], h0 + i, datadir.ACTIVE, len(b['txs']), fileno[placement[i][0]], offs[i])
+        # real post-segwit records also carry BLOCK_OPT_WITNESS (128): the status then needs a two-byte VarInt
+        d.record(b['hdr'], h0 + i, datadir.ACTIVE | (btc.OPT_WITNESS if rng.random() < 0.5 else 0), len(b['txs']), fileno[placement[i][0]], offs[i],
+                 undo=rng.choice([0, 9, 2 ** 20, 2 ** 31]))
     if extra_file:
         x = max(fileno.values()) + 1 + rng.randrange(5)
         d.raw(x, rng.randbytes(50))
